@@ -523,6 +523,24 @@ decls! {
     gen = |r| (0..r.below(5)).map(|_| (r.below(256) as u8, gen_string(r, 3))).collect();
     corpus = vec![vec![], vec![(0, String::new())], vec![(1, "a".to_string()), (2, "b".to_string()), (3, "c".to_string()), (4, "d".to_string())]];
 
+    // an inner type whose encoding depends on `is_human_readable()` (text in JSON/RON, a tagged
+    // byte tuple in MessagePack): the flag has to reach the inner value unchanged in both directions
+    #[nutype(validate(predicate = |ip| !ip.is_unspecified()), derive(Debug, Clone, Serialize, Deserialize))]
+    struct Addr(std::net::IpAddr);
+    family = "other"; validated = true; core = false;
+    gen = |r| match r.below(4) {
+        0 => std::net::IpAddr::V4(std::net::Ipv4Addr::new(0, 0, 0, 0)),
+        1 => std::net::IpAddr::V6(std::net::Ipv6Addr::new(0, 0, 0, 0, 0, 0, 0, r.below(2) as u16)),
+        2 => std::net::IpAddr::V4(std::net::Ipv4Addr::new(r.below(256) as u8, r.below(256) as u8, 0, 1)),
+        _ => std::net::IpAddr::V6(std::net::Ipv6Addr::new(r.below(65536) as u16, 0, 0, 0, 0, 0xffff, r.below(65536) as u16, 1)),
+    };
+    corpus = vec![
+        std::net::IpAddr::V4(std::net::Ipv4Addr::new(127, 0, 0, 1)),
+        std::net::IpAddr::V4(std::net::Ipv4Addr::new(0, 0, 0, 0)),
+        std::net::IpAddr::V6(std::net::Ipv6Addr::new(0, 0, 0, 0, 0, 0, 0, 0)),
+        std::net::IpAddr::V6(std::net::Ipv6Addr::new(0, 0, 0, 0, 0, 0xffff, 0x7f00, 1)),
+    ];
+
     #[nutype(validate(predicate = |b| *b), derive(Debug, Clone, Serialize, Deserialize))]
     struct MustBeTrue(bool);
     family = "other"; validated = true; core = true;
